@@ -32,6 +32,14 @@ def main():
             continue
         for case in con.cases:
             t0 = time.time()
+            if con.status != "proved":
+                st = verify.native_case(con, case, 200, rng, NS)
+                tot["bounded"] = tot.get("bounded", 0) + 1
+                if st["mismatches"] or not quiet:
+                    print(f"bounded    {qual}[{case.name}] evals={st['evaluations']} mismatches={len(st['mismatches'])}")
+                for mm in st["mismatches"][:2]:
+                    print("           MISMATCH", mm)
+                continue
             rep = verify.verify_case(con, case)
             tot[rep.status] = tot.get(rep.status, 0) + 1
             line = f"{rep.status:10s} {qual}[{case.name}] paths={rep.paths} obl={len(rep.obligations)} {time.time()-t0:.2f}s"
